@@ -12,7 +12,8 @@ ASSUME12 = [
     "round trip is demanded for keys from the config-name alphabet [A-Za-z0-9_]; for other keys only 'one line or an error'",
     "values are compared after str() (the API's documented conversion); non-ASCII values are outside the quantifier",
     "every third vector is issued while another command is in flight and an earlier set_conf waits in the queue: the call's own "
-    "command line (written once its turn comes) is what is decided, and the earlier call's line must be untouched",
+    "command line (written once its turn comes) is what is decided, and the earlier call's line must be untouched; another third is "
+    "the second of two identical calls on one connection (a refused call must be refused again, an accepted one written again)",
 ]
 ASSUME13 = [
     "TLC checks both that the wire lines the harness fed are Tor's rendering of the abstract key/value set (WireOK) and that the "
@@ -23,7 +24,7 @@ ASSUME13 = [
     "issued or just before its reply; the expected result does not depend on it",
     "some vectors are issued behind an in-flight command whose caller has cancelled its Deferred: Tor still answers that command "
     "first, and the answer must not be taken for the vector's; some GETINFO vectors are issued twice in a row behind a busy connection "
-    "(two callers asking the same): both must get the value",
+    "(two callers asking the same): both must get the value; some are issued while a multi-line event is half received",
 ]
 CRIT12 = ["a", " ", "\t", '"', "\\", "=", "\r", "\n"]
 CRIT13 = ["a", "=", " ", '"', "'", "2", "5", "0", ".", "O", "K"]
@@ -107,13 +108,17 @@ def run(pid, tier, seed):
         rep.assumptions = list(ASSUME12)
         rep.tlc("KvLine_MC (reference encoder/parser round trip)",
                 tlc.run_tlc("KvLine_MC", "KvLine_MC_%s.cfg" % tier, workers=16, timeout=900))
-        recs = [kv.setconf_vector(a, k, "queued" if i % 3 == 2 else "idle") for i, (a, k) in enumerate(vectors12(tier, seed))]
-        key = lambda r: json.dumps(r["args"])
+        recs = []
+        for i, (a, k) in enumerate(vectors12(tier, seed)):
+            # invalid keys go through every context, the others rotate
+            for ctx in (["idle", "repeat", "queued"] if not k else ["queued" if i % 3 == 2 else "repeat" if i % 3 == 1 else "idle"]):
+                recs.append(kv.setconf_vector(a, k, ctx))
+        key = lambda r: json.dumps([r["args"], r["ctx"]])
     else:
         rep.assumptions = list(ASSUME13)
         rep.tlc("KvLine_MC (grammar round trip)", tlc.run_tlc("KvLine_MC", "KvLine_MC_quick.cfg", workers=16, timeout=900))
         recs = []
-        noises = ["none"] * 6 + ["%s@%s" % (sh, at) for sh in ("midline", "block", "single") for at in ("before", "during")] + ["cancel@before"] * 2 + ["twin@before"] * 2
+        noises = ["none"] * 6 + ["%s@%s" % (sh, at) for sh in ("midline", "block", "single") for at in ("before", "during")] + ["cancel@before"] * 2 + ["twin@before"] * 2 + ["split@before"] * 2
         for v in vectors13(tier, seed):
             noise = rng.choice(noises)
             if v[0] == "info":
